@@ -446,6 +446,13 @@ theorem step_cwlOk (s t : St) (f : Bool) (cfg : Cfg) (h : Step cfg f s t) (inv :
     have l2 := le_tot clAllW _ _ _ hi
     have l3 := le_tot clPreW _ _ _ hi
     (try simp only [St.setDone, St.setBg, ↓reduceIte, Bool.false_eq_true, Bool.and_false, Bool.and_true, Bool.false_and, Bool.true_and]) <;> (repeat' split) <;> simp_all [tot_set_eq _ _ _ _ _ hi, tot_ackWs_srw', tot_ackWs_lgw, tot_ackWs_clall, tot_ackWs_clpre, b2n_true, b2n_false, clearW_idle, clearW_exited, clearW_parked, clearW_eq_exited, clearW_eq_parked, srW, lgW, clAllW, clPreW, St.bg, onOk, onErr, selNext, afterSetErr, srAllW, nextC, roSets] <;> (try omega) <;> (try (intro _; first | exact inv (by omega) | exact Or.inl (inv (by omega))))
+  | clAcqKept _ i hi he hk hs =>
+    clear h4
+    have l0 := le_tot srW _ _ _ hi
+    have l1 := le_tot lgW _ _ _ hi
+    have l2 := le_tot clAllW _ _ _ hi
+    have l3 := le_tot clPreW _ _ _ hi
+    (try simp only [St.setDone, St.setBg, ↓reduceIte, Bool.false_eq_true, Bool.and_false, Bool.and_true, Bool.false_and, Bool.true_and]) <;> (repeat' split) <;> simp_all [tot_set_eq _ _ _ _ _ hi, tot_ackWs_srw', tot_ackWs_lgw, tot_ackWs_clall, tot_ackWs_clpre, b2n_true, b2n_false, clearW_idle, clearW_exited, clearW_parked, clearW_eq_exited, clearW_eq_parked, srW, lgW, clAllW, clPreW, St.bg, onOk, onErr, selNext, afterSetErr, srAllW, nextC, roSets] <;> (try omega) <;> (try (intro _; first | exact inv (by omega) | exact Or.inl (inv (by omega))))
   | clWait _ i hi hm ht =>
     clear h4
     have l0 := le_tot srW _ _ _ hi
